@@ -1,6 +1,7 @@
 package rules
 
 import (
+	"fmt"
 	"go/token"
 	"strings"
 
@@ -16,9 +17,15 @@ const timerArm = "ssv/protocol/v2/qbft/roundtimer.Timer.TimeoutForRound(ssv/prot
 
 func init() {
 	register(&Check{
-		Prop:  "C07",
-		Pkgs:  []string{"./..."},
-		Setup: qbftSetup,
+		Prop: "C07",
+		Pkgs: []string{"./..."},
+		Setup: func(e *ens.Engine) {
+			qbftSetup(e)
+			e.Derived = append(e.Derived, ens.Derived{
+				Func: iN + "getRoundChangeData", Name: "unprepared",
+				Alts: [][]string{{"eq(0:Round, p0.LastPreparedRound)"}, {"isnil(p0.LastPreparedValue)"}},
+			})
+		},
 		Explain: "'Decide within f+3 rounds from every reachable state' and synchrony-dependent termination are behaviours of executions and are NOT decided. Decided: the structural liveness mechanisms are intact on every path. " +
 			"(R1) UponRoundTimeout: once the instance can process messages, EVERY exit (including CreateRoundChange / Broadcast errors) runs the deferred block that bumps State.Round to old+1, clears ProposalAcceptedForCurrentRound and re-arms the timer for (State.Height, State.Round); on the error-free path a round change for old+1 is created before the bump and broadcast; " +
 			"(R2) Controller.OnTimeout reaches UponRoundTimeout whenever the instance exists, the timeout's round is not below the instance round (refusal only on strict <) and the instance is not decided; " +
@@ -28,6 +35,7 @@ func init() {
 			"C07-R1 facts-on-every-exit(UponRoundTimeout after CanProcessMessages) ∋ deferred bump/clear/re-arm; Ens(closure) ⊇ {bump, clear, re-arm}",
 			"C07-R2 facts-before(UponRoundTimeout call in OnTimeout) = {instance≠nil, ¬(timeout.Round < instance.Round), ¬decided} and nothing stronger on the round",
 			"C07-R3 facts-before(effects of uponChangeRoundPartialQuorum / leader proposal / future-proposal bump)",
+			"C07-R4 creator/validator agreement for prepared round changes: call arguments of the prepare filter, returned tuple of getRoundChangeData, data shipped by CreateRoundChange",
 		},
 		Trusted: []string{"QBFT liveness argument under partial synchrony (mechanisms ⇒ termination)", "go/types + go/ssa"},
 		Run:     runC07,
@@ -186,6 +194,61 @@ func runC07(c *core.Ctx) {
 		}
 		c.Decide(ok, "C07-R3", "uponProposal|bump to the proposal's round", c.P.Pos(f.Pos()), "bumpToRound(msg.Round)", "accepting a proposal does not move the operator to the proposal's round")
 	}
+	// ---------------- R4: a prepared operator's round change is one its peers accept.
+	// validRoundChangeForData accepts a prepared round change only with a quorum of prepares valid for
+	// (height, DataRound, Root); the creator must therefore attach the prepares of LastPreparedRound,
+	// validated for exactly the (round, root) it announces — in every later round, not only the next one.
+	gj := instPkg + ".getRoundChangeJustification"
+	if f := fn(c, "C07-R4", gj); f != nil {
+		a := c.E.Analyze(f)
+		want := iN + "validSignedPrepareForHeightRoundAndRoot(p1, ssv-spec/qbft.MsgContainer.MessagesForRound(p2, p0.LastPreparedRound)[_], p0.Height, p0.LastPreparedRound, ssv-spec/qbft.HashDataRoot(p0.LastPreparedValue)#0, p0.Share.Committee)"
+		n := 0
+		for _, s := range callsIn(f, iN+"validSignedPrepareForHeightRoundAndRoot") {
+			n++
+			got := a.D.Call(s.Instr).String()
+			c.Decide(got == want, "C07-R4", "getRoundChangeJustification|prepares of LastPreparedRound validated for (Height, LastPreparedRound, root of LastPreparedValue)", c.P.Pos(s.Instr.Pos()), got,
+				"the justification is built by "+got+": prepares must be taken from, and validated for, State.LastPreparedRound and the root of LastPreparedValue — otherwise every round change after the first carries no justification and peers reject it (no later round can gather a quorum)")
+		}
+		c.Decide(n == 1, "C07-R4", "getRoundChangeJustification|one validation site", c.P.Pos(f.Pos()), "", fmt.Sprintf("%d validation call sites", n))
+		exits, _ := a.Exits("err=nil")
+		nq := 0
+		for _, ex := range exits {
+			r0 := a.D.D(ex.Ret.Results[0]).String()
+			if r0 == "nil" {
+				continue
+			}
+			nq++
+			_, ok := ex.Facts.Has("T(*HasQuorum(p0.Share, *")
+			c.Decide(ok, "C07-R4", "getRoundChangeJustification|returned only with a quorum", c.P.Pos(ex.Ret.Pos()), "under HasQuorum", "a justification is returned without a quorum of valid prepares")
+		}
+		c.Decide(nq == 1, "C07-R4", "getRoundChangeJustification|one justified exit", c.P.Pos(f.Pos()), "", fmt.Sprintf("%d exits return a justification", nq))
+	}
+	if f := fn(c, "C07-R4", instPkg+".getRoundChangeData"); f != nil {
+		a := c.E.Analyze(f)
+		exits, _ := a.Exits("err=nil")
+		np := 0
+		for _, ex := range exits {
+			var rs []string
+			for _, r := range ex.Ret.Results[:4] {
+				rs = append(rs, a.D.D(r).String())
+			}
+			got := strings.Join(rs, " ; ")
+			if strings.HasPrefix(got, "0:Round") {
+				_, unprep := ex.Facts.Has("or(unprepared)")
+				c.Decide(unprep, "C07-R4", "getRoundChangeData|unprepared only when nothing was prepared", c.P.Pos(ex.Ret.Pos()), "under LastPreparedRound == NoRound or LastPreparedValue == nil", "an unprepared round change is produced although a value was prepared")
+				continue
+			}
+			np++
+			want := "p0.LastPreparedRound ; ssv-spec/qbft.HashDataRoot(p0.LastPreparedValue)#0 ; p0.LastPreparedValue ; " + iN + "getRoundChangeJustification(p0, p1, p0.PrepareContainer)#0"
+			c.Decide(got == want, "C07-R4", "getRoundChangeData|announces (LastPreparedRound, root, value) with the justification built for them", c.P.Pos(ex.Ret.Pos()), got, "the prepared round-change data is ("+got+"), not (LastPreparedRound, root of LastPreparedValue, LastPreparedValue, its justification)")
+		}
+		c.Decide(np == 1, "C07-R4", "getRoundChangeData|one prepared exit", c.P.Pos(f.Pos()), "", fmt.Sprintf("%d prepared exits", np))
+	}
+	// CreateRoundChange ships exactly that data
+	ensures(c, "C07-R4", instPkg+".CreateRoundChange", "err=nil", []Req{
+		{"data-from-state", "ok(" + iN + "getRoundChangeData(p0, p1, p3))", ""},
+		{"justification-marshalled", "ok(ssv-spec/qbft.MarshalJustifications(" + iN + "getRoundChangeData(p0, p1, p3)#3))", "the justification returned for the prepared value is the one attached"},
+	})
 }
 
 func init() {
